@@ -106,6 +106,33 @@ def run(ctx):
                     ok = True
     ctx.require(ok, "R-C09-3", "guarded-division", "the 1/(n-1) scale is computed only after the n <= 1 test", "the 1/(n-1) scale is not guarded by a test of n", loc_str(dc.span))
 
+    # ------------------------------------------------------------------ R-C09-5
+    ctx.rule("R-C09-5", "per-node degrees are computed from the stored edges (per-node edge lists), never from the adjacency cache")
+    want = {
+        "degree::Graph::get_node_degree": "get_edges_for_node",
+        "degree::Graph::get_node_weighted_degree": "get_edges_for_node",
+        "degree::Graph::get_node_in_degree": "get_in_edges_for_node",
+        "degree::Graph::get_node_weighted_in_degree": "get_in_edges_for_node",
+        "degree::Graph::get_node_out_degree": "get_out_edges_for_node",
+        "degree::Graph::get_node_weighted_out_degree": "get_out_edges_for_node",
+    }
+    for sfx, src in want.items():
+        b = prog.one(sfx)
+        sl = flows.slice(b.path, [L(0)], up=False, down="clos", data_only=True)
+        cal = set()
+        fields = set()
+        for (bp, nd) in sl:
+            if nd[0] == "CALL":
+                t = prog.bodies[bp].blocks[nd[1]].term
+                if t.callee:
+                    cal.add(t.callee.short.split("::")[-1])
+            if nd[0] == "SRC":
+                f_ = field_of(("P", nd[1], nd[2]))
+                if f_:
+                    fields.add(f_)
+        cache = (cal & {"get_successor_nodes_by_index", "get_predecessor_nodes_by_index"}) | (fields & {"successors_vec", "predecessors_vec"})
+        ctx.require(src in cal and not cache, "R-C09-5", b.short, "%s is computed from %s" % (sfx.split("::")[-1], src), "%s is computed from %s%s: the cache has one entry and one policy weight per neighbour, so parallel edges are not counted/summed individually" % (sfx.split("::")[-1], sorted(cal & {"get_edges_for_node", "get_in_edges_for_node", "get_out_edges_for_node"}) or "no edge list", (" and the adjacency cache " + str(sorted(cache))) if cache else ""), loc_str(b.span))
+
     # ------------------------------------------------------------------ R-C09-4
     ctx.rule("R-C09-4", "the self-loop correction of the (weighted) degree depends on specs.directed within the function")
     for sfx in ("degree::Graph::get_node_degree", "degree::Graph::get_node_weighted_degree"):
